@@ -433,6 +433,7 @@ def run_unit(unit, tier, scratch, keep=False):
             return res
     res.cover_obs = []
     res.instr_obs = 0
+    res.unknown = 0
     for rr in results:
         ob = obligation_record(rr, wd)
         if ".no-body." in (ob["id"] or "") and any(ob["id"].endswith("no-body." + f) for f in unit.get("allow_no_body", [])):
@@ -442,6 +443,13 @@ def run_unit(unit, tier, scratch, keep=False):
             continue
         if (ob["function"] or "").startswith("__CPROVER_") and ob["status"] == "SUCCESS":
             res.instr_obs += 1   # self-checks inside CBMC's contract-instrumentation library: not counted
+            continue
+        if ob["status"] == "UNKNOWN":
+            # cbmc generated no verification condition it had to decide (not reached in this unit): neither
+            # discharged nor failed.  A named obligation must never end up here.
+            res.unknown += 1
+            if ob["tag"]:
+                res.infra = "named obligation %s has status UNKNOWN" % ob["tag"]
             continue
         res.obligations.append(ob)
         if ob["status"] != "SUCCESS":
@@ -513,6 +521,8 @@ def match_known(known, prop, unit_name, ob):
 
 
 def ob_belongs(ob, prop, unit):
+    if unit.get("shared_tags"):
+        return True     # every obligation of this unit counts for every property the unit serves
     tag = ob.get("tag")
     if tag and re.match(r"^C\d\d", tag):
         return tag.startswith(prop)
